@@ -138,6 +138,10 @@ def stateless_check(ck, binary, scenario, module, hargs, canary_specs, keyfn, sh
     for kind, mut in canary_specs:
         src = next((e for e in events if e["event"] == kind), None)
         if src is None:
+            # the harness reports an operation of the library that panicked (or ran away) as a Panic event in place
+            # of the usual one: that event is rejected by the trace specification, there is nothing to make a canary of
+            if any(e["event"] == "Panic" for e in events):
+                continue
             raise ToolError(f"no {kind} event recorded by {scenario}")
         c = copy.deepcopy(src)
         mut(c)
@@ -189,7 +193,7 @@ def c18(ck):
         [("ModeBlock", bump("raw")), ("ModeBlock", bump("class")), ("NegBlock", bump("perms")),
          ("CtorBlock", bump("perms")), ("I32Runs", widen)],
         lambda e, r: f"{e['event']}:{e.get('kind','')}:{e.get('base','')}" if e else "?", shards=8)
-    runs = next(e for e in events if e["event"] == "I32Runs")["runs"]
+    runs = next((e for e in events if e["event"] == "I32Runs"), {"runs": []})["runs"]
     ck.samples.append({"I32Runs": runs})
     ck.samples.append({"ModeBlock base 32768 raw[0..4]": next(e for e in events if e["event"] == "ModeBlock" and e["base"] == 32768)["raw"][:4]})
     ck.evaluations = 65536 + 32768 + 3 * 65536 + 2 ** 32
